@@ -22,7 +22,7 @@ func init() {
 		ID:    "C14",
 		Title: "Decoded packets own their memory and packets do not interfere",
 		Level: "model_checking",
-		Rule: "explicit enumeration of operation histories over a pool of up to three real packets and one reusable read buffer: decode frame f (one rich frame per type, 16 incl. type 0) through ReadPacket from the buffer or through UnmarshalBinary(buf[hdr:n]) on the type's zero value; scribble (overwrite the buffer with ff); encode packet i; String+Dump packet i; call one of four setters/adders on packet i. " +
+		Rule: "explicit enumeration of operation histories over a pool of up to three real packets and one reusable read buffer: decode frame f (one rich frame per type, 16 incl. type 0) through ReadPacket from the buffer, or through UnmarshalBinary(buf[hdr:n]) on the type's zero value or on a value made by the type's constructor; scribble (overwrite the buffer with ff); encode packet i; String+Dump packet i; call one of four setters/adders on packet i. " +
 			"All sequences of length <=3 (quick) / <=4 (thorough). Invariants in the state reached by every sequence: (1) the full observation (accessors, String, re-encoding) of every packet not targeted by the last operation equals the snapshot taken when it was last targeted; (2) a freshly decoded packet equals the reference decode of the same frame in a pristine process (history independence); (3) whenever the deep digest of the package-level variables differs from its initial value, packets freshly built with the constructors must still encode and render exactly as in a pristine process; (4) alias analysis of the concrete object graphs: no mutable memory region shared between two pool packets or between a packet and the caller's buffer. " +
 			"states = sequences executed (each replayed on fresh objects), transitions = operations executed; distinct_nontrivial = distinct sequences containing at least one decode followed by another operation.",
 		Assumptions: []string{
@@ -127,6 +127,11 @@ func c14Alphabet(pf *poolFrames) []poolOp {
 	for f := range pf.frames {
 		ops = append(ops, poolOp{Name: fmt.Sprintf("unmarshal(%s)", bind.TypeNames[pf.types[f]]), Kind: 'u', Frame: f})
 	}
+	for f := range pf.frames {
+		if pf.types[f] != 0 {
+			ops = append(ops, poolOp{Name: fmt.Sprintf("unmarshalNew(%s)", bind.TypeNames[pf.types[f]]), Kind: 'n', Frame: f})
+		}
+	}
 	ops = append(ops, poolOp{Name: "scribble", Kind: 's'})
 	for s := 0; s < 3; s++ {
 		ops = append(ops, poolOp{Name: fmt.Sprintf("encode(#%d)", s), Kind: 'e', Slot: s})
@@ -161,7 +166,7 @@ func c14Run(pf *poolFrames, ops []poolOp, seq []int, globals0 digest.Sum) (f *co
 		target = -1
 		last := step == len(seq)-1
 		switch o.Kind {
-		case 'r', 'u':
+		case 'r', 'u', 'n':
 			if len(pool) == 3 || pf.ref[o.Frame] == "unreadable" {
 				return nil, false
 			}
@@ -174,6 +179,10 @@ func c14Run(pf *poolFrames, ops []poolOp, seq []int, globals0 digest.Sum) (f *co
 				p, err, res = readPacket(bytes.NewReader(buf[:n]), stepBudget(n))
 			} else {
 				p = bind.Zero(pf.types[o.Frame])
+				if o.Kind == 'n' {
+					// decoding into a packet made by the constructor
+					p = bind.New(pf.types[o.Frame])
+				}
 				body := buf[pf.hdr[o.Frame]:n]
 				res = guarded(stepBudget(n), func() { err = p.UnmarshalBinary(body) })
 				if pf.types[o.Frame] == 3 && err == nil {
@@ -292,7 +301,7 @@ func runC14(x *core.Ctx) {
 			x.R.States++
 			x.R.Traces++
 			x.R.Transitions += int64(len(seq))
-			if len(seq) >= 2 && (ops[seq[0]].Kind == 'r' || ops[seq[0]].Kind == 'u') {
+			if len(seq) >= 2 && (ops[seq[0]].Kind == 'r' || ops[seq[0]].Kind == 'u' || ops[seq[0]].Kind == 'n') {
 				x.Distinct(core.HashInts("c14", seq))
 			}
 			if f != nil {
@@ -321,7 +330,7 @@ func runC14(x *core.Ctx) {
 					continue
 				}
 			}
-			if len(seq) == 0 && ops[oi].Kind != 'r' && ops[oi].Kind != 'u' && ops[oi].Kind != 's' {
+			if len(seq) == 0 && ops[oi].Kind != 'r' && ops[oi].Kind != 'u' && ops[oi].Kind != 'n' && ops[oi].Kind != 's' {
 				continue // nothing to operate on yet
 			}
 			if x.Expired() {
